@@ -128,6 +128,15 @@ def to_form(trajs, form, rng):
     return as_arrays(trajs, rng)
 
 
+def long_sets(tier):
+    """few-state trajectory sets whose lengths are primes just above powers of two (where blocked / chunked / parallel kernels change their path and a
+    frame count is never divisible by the thread count), plus one short companion trajectory: (trajs, N)"""
+    import core
+    for N in (1031, 4099, 8209) + ((16411, 65537) if tier == 'thorough' else ()):
+        r = core.Rng(N)
+        yield [random_traj(r, 4, N, 0.85), random_traj(r, 4, 37, 0.85)], N
+
+
 def special_sets(rng):
     """trajectory sets whose CONTAINER shape is the point (learned from seeded changes): (trajs, form, tag)"""
     # > 32 trajectories, 0-based contiguous alphabet with > 127 states, wide labels only in the leading trajectories and
